@@ -7,6 +7,7 @@ def jobs(tier):
     out = [Job('bucket-index', 'dht.cpp', 'h_c07_bucket_index', [0], reach=['indexed', 'self'], bounds='all pairs of 256-bit ids', timeout=1500),
            Job('closest-n2-same', 'dht.cpp', 'h_c07_closest', [2, 1], reach=['answered', 'empty'], bounds='2 contacts in one bucket', timeout=1500),
            Job('closest-n2-diff', 'dht.cpp', 'h_c07_closest', [2, 0], reach=['answered', 'empty'], bounds='2 contacts in two buckets', timeout=1500),
+           Job('closest-n3-low-concrete', 'dht.cpp', 'h_c07_closest', [3, 3], reach=['answered', 'empty'], bounds='3 concrete live contacts in the three buckets below the top one; target (bytes 0, 30, 31) and limit symbolic', timeout=1500),
            Job('closest-n2-low', 'dht.cpp', 'h_c07_closest', [2, 2], reach=['answered', 'empty'], bounds='2 contacts in the two buckets below the top one', timeout=1500),
            Job('shape-k2', 'dht.cpp', 'h_c07_shape', [2], reach=['shape-checked'], bounds='2 registrations', timeout=1500),
            Job('overflow', 'dht.cpp', 'h_c07_overflow', [0], reach=['overflowed'], bounds='17 contacts in bucket 255', timeout=1500)]
